@@ -38,6 +38,10 @@ Definition M_localAuth : N := 0.
 Definition M_vipPush : N := 1.
 Definition M_pendingOauth2 : N := 2.
 Definition M_totpRate : N := 3.
+(* the signer state written by the unseal path after start-up, as one-slot maps (key 0):
+   RuntimeState.Signer (absent = sealed) and RuntimeState.KeymasterPublicKeys (absent = no key published) *)
+Definition M_signer : N := 4.
+Definition M_pubkeys : N := 5.
 Definition L_state : N := 0.          (* RuntimeState.Mutex *)
 Definition L_totp : N := 1.           (* RuntimeState.totpLocalTateLimitMutex *)
 Definition guard (m : N) : N := if m =? M_totpRate then L_totp else L_state.
@@ -233,7 +237,10 @@ Inductive hid :=
 | HU2fSignReq (u chal : N)           (* 2fa_u2f.go u2fSignRequest *)
 | HU2fSignResp (u c : N)             (* 2fa_u2f.go u2fSignResponse; c = the challenge the presented assertion answers *)
 | HU2fSignRespOld (u c : N)          (* the same before the fix: delete outside the mutex *)
-| HSpacing (u now : N).              (* only the spacing test-and-set *)
+| HSpacing (u now : N)               (* only the spacing test-and-set *)
+| HUnseal                            (* unseal.go unsealCA: already-unsealed test, load the signers, publish the keys, all under the mutex *)
+| HUnsealSplit                       (* NOT the code: the key list is appended after the mutex was released *)
+| HReadKeys.                         (* a handler that serves the published keys: sealed test under the mutex, then reads the key list *)
 
 Definition has_enabled_tok (o : option profile) : bool :=
   match o with Some p => existsb t_enabled (toks p) | None => false end.
@@ -273,6 +280,16 @@ Definition handler (h : hid) : list act :=
        CheckMap is_some 400; CheckMap (fun m => oN_eq m (Some c)) 500;
        MapDel M_localAuth u; Respond 200]
   | HSpacing u now => spacing u now ++ [Respond 200]
+  | HUnseal =>
+      [Lock L_state; MapGet M_signer 0; CheckMap (fun m => negb (is_some m)) 400;
+       MapSet M_signer 0 1; MapSet M_pubkeys 0 1; Unlock L_state; Respond 200]
+  | HUnsealSplit =>
+      [Lock L_state; MapGet M_signer 0; CheckMap (fun m => negb (is_some m)) 400;
+       MapSet M_signer 0 1; Unlock L_state; MapSet M_pubkeys 0 1; Respond 200]
+  | HReadKeys =>
+      (* 500: sealed; 299: answered as unsealed with an incomplete key set; 200: the keys *)
+      [Lock L_state; MapGet M_signer 0; Unlock L_state; CheckMap is_some 500;
+       MapGet M_pubkeys 0; CheckMap is_some 299; Respond 200]
   end.
 
 (* ------------------------------------------------------------------ storage-operation granularity *)
@@ -301,6 +318,27 @@ Definition seg (w : world) (i : nat) : world := let w1 := step w i in burst (fue
 Definition start (w : world) : world := fold_left (fun w i => burst (fuel_of w i) w i) (seq 0 (length (threads w))) w.
 Definition run_seg (w : world) (sched : list nat) : world := fold_left seg sched (start w).
 
+(* the same at the granularity the statement names: a request is pre-empted only at a storage operation *)
+Definition is_syield (a : act) : bool :=
+  match a with Load _ | Save _ _ | Del _ => true | _ => false end.
+
+Fixpoint sburst (fuel : nat) (w : world) (i : nat) : world :=
+  match fuel with
+  | O => w
+  | S f =>
+      match nth_error (threads w) i with
+      | Some t => match prog t with
+                  | [] => w
+                  | a :: _ => if is_syield a then w else sburst f (step w i) i
+                  end
+      | None => w
+      end
+  end.
+
+Definition sseg (w : world) (i : nat) : world := let w1 := step w i in sburst (fuel_of w1 i) w1 i.
+Definition sstart (w : world) : world := fold_left (fun w i => sburst (fuel_of w i) w i) (seq 0 (length (threads w))) w.
+Definition run_sseg (w : world) (sched : list nat) : world := fold_left sseg sched (sstart w).
+
 (* ------------------------------------------------------------------ outcomes and sequential orders *)
 Definition tok_eqb (a b : token) : bool := (t_idx a =? t_idx b) && Bool.eqb (t_enabled a) (t_enabled b) && (t_name a =? t_name b).
 Fixpoint toks_eqb (a b : list token) : bool :=
@@ -313,6 +351,9 @@ Definition oprofile_eqb (a b : option profile) : bool :=
    interest, which challenges are outstanding *)
 Definition outcome (users : list N) (w : world) : list (option N) * list (option profile) * list (option N) :=
   (map resp (threads w), map (fun u => get u (store w)) users, map (fun u => mget M_localAuth u (mem w)) users).
+
+(* the answer of request i *)
+Definition resp_at (w : world) (i : nat) : option N := match nth_error (threads w) i with Some t => resp t | None => None end.
 
 Fixpoint list_eqb {A} (e : A -> A -> bool) (a b : list A) : bool :=
   match a, b with [], [] => true | x :: a', y :: b' => e x y && list_eqb e a' b' | _, _ => false end.
